@@ -222,8 +222,8 @@ inline constexpr void Conversion<Unit::Time, Unit::Time::Hour>::ToStandard(
 }
 
 template <typename NumericType>
-inline const std::map<Unit::Time, std::function<void(NumericType* values, const std::size_t size)>>
-    MapOfConversionsFromStandard<Unit::Time, NumericType>{
+inline constexpr auto MapOfConversionsFromStandard<Unit::Time, NumericType>{
+  MakeConversionTable<Unit::Time, NumericType>({
       {Unit::Time::Second,      Conversions<Unit::Time, Unit::Time::Second>::FromStandard<NumericType>     },
       {Unit::Time::Nanosecond,
        Conversions<Unit::Time,                          Unit::Time::Nanosecond>::FromStandard<NumericType> },
@@ -233,12 +233,12 @@ inline const std::map<Unit::Time, std::function<void(NumericType* values, const 
        Conversions<Unit::Time,                          Unit::Time::Millisecond>::FromStandard<NumericType>},
       {Unit::Time::Minute,      Conversions<Unit::Time, Unit::Time::Minute>::FromStandard<NumericType>     },
       {Unit::Time::Hour,        Conversions<Unit::Time, Unit::Time::Hour>::FromStandard<NumericType>       },
+})
 };
 
 template <typename NumericType>
-inline const std::
-    map<Unit::Time, std::function<void(NumericType* const values, const std::size_t size)>>
-        MapOfConversionsToStandard<Unit::Time, NumericType>{
+inline constexpr auto MapOfConversionsToStandard<Unit::Time, NumericType>{
+  MakeConversionTable<Unit::Time, NumericType>({
           {Unit::Time::Second,
            Conversions<Unit::Time,                          Unit::Time::Second>::ToStandard<NumericType>     },
           {Unit::Time::Nanosecond,
@@ -250,6 +250,7 @@ inline const std::
           {Unit::Time::Minute,
            Conversions<Unit::Time,                          Unit::Time::Minute>::ToStandard<NumericType>     },
           {Unit::Time::Hour,        Conversions<Unit::Time, Unit::Time::Hour>::ToStandard<NumericType>       },
+})
 };
 
 }  // namespace Internal
